@@ -19,9 +19,12 @@ NA = {
 }
 PENDING = {
 "C06":"Claimed in DESIGN.md; check not built yet in this commit (seeded interleaving of logical clients over a handle tree).",
-"C14":"Claimed in DESIGN.md; check not built yet in this commit (seeded goroutine scheduler over the prepared-statement cache).",
 }
 CHECKS = {
+"C14": dict(cat="exploration", ref="DESIGN.md section 7, C14",
+  text="2..4 client tasks plus the closer goroutines gorm starts itself run 4 shared statement texts (query/exec, direct or in Begin..Commit/Rollback, one writer), Reset and Close through Config.PrepareStmt or Session{PrepareStmt:true} handles under the seeded scheduler, with planned Prepare failures and ErrBadConn bursts (thorough: simulated pool bound 1/2). Per run: no deadlock (all-waiting detection), every use returns the non-prepared rows / the injected fault / a closed-cache error explained by a Close (porcupine against an open/closed model), at most one pool-bound Prepare per text and cache generation, failed preparations not cached, every driver statement closed after the final Close, committed writer rows present; race-build runs add the race detector's verdict. Seeded sampling of schedules and fault plans.",
+  note="Trusted: no parking inside database/sql (prepared executions interleave at whole-call granularity); `go stmt.Close()` goroutines of the ErrBadConn branches run outside the scheduler; the generation rule exempts transaction-bound preparations requested before a pool-bound entry existed and everything after a Close.",
+  tech="deterministic simulation: seeded baton scheduler over Prepare/Exec/Reset/Close with fault injection, porcupine history check, driver-level leak accounting, race detector"),
 "C07": dict(cat="exploration", ref="DESIGN.md section 7, C07",
   text="2..32 tasks share one *gorm.DB and run seeded programs (Create with nested associations, Find/First, Preload, Joins, Update(s), Delete, Transaction, Association calls) on disjoint rows, schema cache cold or warm, PrepareStmt on/off; a seeded scheduler (one runnable goroutine at a time, futex hand-off invisible to the race detector) decides every interleaving at pool calls, hooks, naming-strategy calls inside schema parsing and the simhook sites in gorm. Per run: every task's results and the final rows equal the serial run, no deadlock, no panic; race-build runs add: no race report with an access in gorm code (known racing pairs are listed individually). Seeded sampling of schedules, not enumeration.",
   note="Trusted: the write-token serialisation of write transactions (SQLite single writer); no parking inside database/sql; the race detector's bounded history; the serial run as the reference for 'same result as when it runs alone'.",
